@@ -577,6 +577,24 @@ func TestC06(t *testing.T) {
 		}
 	}
 
+	// a busy window: hundreds of requests retained at once; a retransmission of the oldest, of the newest and of a
+	// state-changing request that arrived when the window was that full is answered from the window and not executed
+	for _, n := range []int{255, 300, 520} {
+		evs := []Ev{{"assoc", 0, 100000}, {"assoc", 1, 100000}}
+		for i := 0; i < n; i++ {
+			evs = append(evs, Ev{"hb", i % 2, uint32(1000 + i)})
+		}
+		evs = append(evs, Ev{"est", 0, 5}, Ev{"est", 1, 5}, Ev{"est", 0, 5}, Ev{"hb", 0, 1000}, Ev{"hb", (n - 1) % 2, uint32(1000 + n - 1)},
+			Ev{"mod", 0, 6}, Ev{"mod", 0, 6}, Ev{"est", 1, 5}, Ev{"del", 0, 7}, Ev{"del", 0, 7})
+		c := Case{Evs: evs}
+		v, s := run(c)
+		account(c, s, false)
+		vcore.E.Class("hundreds_of_requests_retained_at_once")
+		if v != nil {
+			vcore.Report(t, v, c) // as found: not worth minimising
+		}
+	}
+
 	// an answer that could not be sent: the request was executed, its retransmission gets the answer (package rxwindow)
 	rxwindow.LostPart(t)
 	// (b) real retention window (package rxwindow)
